@@ -1,4 +1,5 @@
 mod c19;
+mod c20;
 mod exec;
 mod props;
 mod solver;
